@@ -139,8 +139,8 @@ func ruleST1(c *Ctx) {
 			if cl == nil || calleeFullName(&cl.Call) != "os.Stat" {
 				return false
 			}
-			j, _ := callOf(cl.Call.Args[0])
-			if j == nil {
+			j, _ := callOf(resolveEnv(cl.Call.Args[0], a.Env))
+			if j == nil || calleeFullName(&j.Call) != "path/filepath.Join" {
 				return false
 			}
 			el := variadicElems(j.Call.Args)
@@ -283,7 +283,11 @@ func ruleST2(c *Ctx) {
 	// the walk: the value joined with ".ergo" and Stat'ed must be absolute
 	okWalk := false
 	n := 0
-	for _, call := range callsNamed(red, "os.Stat") {
+	var stats []ssa.CallInstruction
+	for _, g := range c.unitOf(red) {
+		stats = append(stats, callsNamed(g, "os.Stat")...)
+	}
+	for _, call := range stats {
 		n++
 		if a.isAbs(call.Common().Args[0], 0) {
 			okWalk = true
@@ -437,7 +441,7 @@ func ruleDT3(c *Ctx) {
 	fn := c.Name(rd)
 	pathParam := rd.Params[0]
 	// the Unmarshal failure edge leads to an error built from path and a line number
-	fns := append([]*ssa.Function{rd}, Closures(rd)...)
+	fns := c.unitOf(rd)
 	okLoc := false
 	for _, g := range fns {
 		for _, um := range callsNamed(g, "encoding/json.Unmarshal") {
